@@ -33,6 +33,16 @@ def main(path):
     except Exception as e:  # the model is outside the real constructors' domain
         print(json.dumps(dict(reproduced=False, why=f"inputs not constructible: {type(e).__name__}: {e}")))
         return 0
+    def has_placeholder(v, depth=0):
+        if isinstance(v, dict):
+            return "opaque" in v or any(has_placeholder(x, depth + 1) for x in v.values())
+        if isinstance(v, (list, tuple)) and depth < 6:
+            return any(has_placeholder(x, depth + 1) for x in v)
+        return False
+    if any(has_placeholder(v) for v in args.values()):
+        # an opaque value of the model (a geometry, a file ...) for which there is no real counterpart: nothing to run
+        print(json.dumps(dict(reproduced=False, why="an input is an opaque value of the model with no real counterpart")))
+        return 0
     params = list(inspect.signature(target).parameters)
     call_args = {k: v for k, v in args.items() if k in params}
     out = dict(repo_file=soundevent.__file__, call=f"{rec['target']}(**{call_args!r})")
